@@ -93,6 +93,11 @@ CHECKS = {
     technique='TLA+ spec MemSafety.tla plus the InBounds invariants of the per-subsystem modules, checked by TLC at boundary constants; every boundary instantiation executed on the real kernels with bounds checking (NUMBA_BOUNDSCHECK=1 / interpreted) and in guarded arenas',
     text='TLC checks the index expressions of the _tsc_parallel pass loops, linear_interp (quotient rounding up at a knot) and getPointsOnSphere for all small sizes (the original expressions are flagged as controls) and re-runs the InBounds invariants of Cumsum, Partition, TwoPass, CatalogIndex (zipper), MassAssign and ModeBinning at boundary constants. 155 boundary instantiations of 30+ kernels (empty arrays, single elements, zero-particle halos, empty superslabs, 2-D CIC grid, positions on the domain boundaries and at BoxSize, offsets of half a cell, edges beyond Nyquist, pimax below the mesh, lookups one ulp inside the last knot, fewer items than threads, odd stripe counts) are executed compiled with NUMBA_BOUNDSCHECK=1 (serial kernels) or interpreted with numpy bounds checks (parallel kernels), and compiled as shipped inside guarded arenas; any bounds fault or touched guard is a violation.',
     note='Interpreted execution stands in for compiled parallel kernels (same source). Documented domains as listed in the evidence assumptions; gen_sats_nfw/compute_fast_NFW not exercised in the quick tier.'),
+ 'C13': dict(
+    design='DESIGN.md §5 C13', level='exploration',
+    technique='TLA+ spec PowerSym.tla: symmetry generators as actions with the requirement Estimate\' = Estimate; TLC generates all action words (and checks the group facts); the words are replayed step by step on the real calc_power',
+    text='Exploration level: the floating-point pipeline is outside TLC arithmetic, so the specification contributes the action structure (permute, whole-cell translate incl. across the boundary, thread count, cross=auto), the TLC-checked group facts and the exhaustive set of action words of length <=2 (quick) / 3 (thorough); each word is replayed on calc_power for 4 (6) pipeline configurations (TSC/CIC x compensated x interlaced x mesh 8/9/12 x binnings x poles) with the table compared after every action: N_mode, k/mu ranges and shape exactly (N_mode also against bin_kmu on a unit mesh), power/k_avg/poles within 5e-5 of the table maximum (observed 4e-7).',
+    note='Dyadic lattice positions make translations exact; thread invariance is decided by C07/C08/C10.'),
 }
 NA = [
  dict(property_id='C18', reason='Pure real-valued geometry (square roots, sines, cross products) on a fixed finite domain of 65 340 codes: no state, order, schedule or index structure for a TLA+ transition system, and orthonormality/coverage are floating-point facts outside TLC integer arithmetic; an exhaustive numeric sweep would be a different technique (DESIGN.md §7).'),
